@@ -533,6 +533,16 @@ def strip(case):
     return {k: v for k, v in case.items() if not k.startswith("_")}
 
 
+# segment ids that no double can tell apart from their neighbours (2**53 .. 2**53+3) and ids near 2**62
+B53, B62 = 2 ** 53, 2 ** 62
+BIG_ID_TREE = [[B53 + 1, None, None, (F(0), F(0), F(0), F(2)), (F(4), F(0), F(0), F(2))],
+               [B53, B53 + 1, F(1), None, (F(8), F(0), F(0), F(2))],
+               [B53 + 2, B53 + 1, F(1, 2), None, (F(2), F(4), F(0), F(1))],
+               [B53 + 3, B53 + 2, F(1), None, (F(2), F(7), F(0), F(1))],
+               [B62 + 1, B53 + 2, F(1, 4), None, (F(2), F(1), F(8), F(1))],
+               [B62 - 1, B62 + 1, F(1), (F(2), F(1), F(8), F(1)), (F(2), F(1), F(10), F(1))],
+               [B62 + 3, B62 + 1, F(1), None, (F(5), F(1), F(8), F(1))]]
+
 STORED = [
     # (name, segs) — the defects seen while reading; run first on every run
     ("one-segment-id7", [[7, None, None, (F(0), F(0), F(0), F(2)), (F(4), F(0), F(0), F(2))]]),
@@ -540,6 +550,7 @@ STORED = [
                    [1, 3, F(1, 2), None, (F(2), F(4), F(0), F(1))],
                    [7, 1, F(1, 4), None, (F(2), F(1), F(8), F(1))]]),
     ("one-segment-id0", [[0, None, None, (F(1), F(0), F(0), F(1)), (F(1), F(0), F(3), F(1))]]),
+    ("segment-ids-above-2**53", BIG_ID_TREE),
 ]
 
 
@@ -756,6 +767,22 @@ def run(ck):
     B = 400
     for k in range(0, len(cases), B):
         results += ck.impl("c13_impl.py", {"cases": [strip(c) for c in cases[k:k + B]]}, timeout=900)["results"]
+    nenv = 10
+    try:
+        res_env = ck.impl("c13_impl.py", {"cases": [strip(c) for c in cases[:nenv]]}, timeout=600, pyflags=["-O"],
+                          extra_env={"PYTHONHASHSEED": "3"}, cwd="/")["results"]
+    except Exception as e:       # noqa: BLE001
+        res_env = None
+        ck.oblige("impl:c13_impl.py:-O,PYTHONHASHSEED=3,cwd=/", False, str(e)[-1500:], kind="correspondence")
+    if res_env is not None:
+        ck.oblige("impl:c13_impl.py:-O,PYTHONHASHSEED=3,cwd=/", True, kind="correspondence")
+        for c, a, b in zip(cases[:nenv], results[:nenv], res_env):
+            ck.count(1, nontrivial_key="env:" + signature(c))
+            ck.tally("environment:-O,hashseed=3,cwd=/")
+            if a != b:
+                diff = [k for k in a if a.get(k) != b.get(k)]
+                ck.witness("C13:environment-dependence", "results depend on the interpreter's configuration (-O, PYTHONHASHSEED=3, "
+                           "cwd=/): %s" % diff, input=strip(c), expected={k: a[k] for k in diff[:3]}, observed={k: b.get(k) for k in diff[:3]})
     t3 = time.time()
     norm = []
     for case, out in zip(cases, results):
@@ -776,6 +803,15 @@ def run(ck):
                         (keys is not None and any(o["ok"][x] != ob["ok"][x] for x in keys)):
                     ck.witness("C13:ordered_segments:return-shapes", "flag combinations of get_ordered_segments_in_groups disagree",
                                input=strip(case), expected=ob, observed={other: o})
+        forms = out.get("ord_forms", [])
+        base = next((v for nme, v in forms if nme == "list-of-one"), None)
+        basem = next((v for nme, v in forms if nme == "list"), None)
+        for nme, v in forms:
+            want = basem if nme in ("list", "tuple") else base
+            if want is not None and v != want:
+                ck.witness("C13:ordered_segments:selection-given-as-" + nme,
+                           "get_ordered_segments_in_groups gives another result when the same selection is passed as %s" % nme,
+                           input=strip(case), expected={"as a list": want}, observed={nme: v})
         if "default_dist" in out:
             # the documented default source is segment 0
             for d, v in out["default_dist"]:
